@@ -60,7 +60,12 @@ LEAN_MODULE_EXTRA = list(globals().get('LEAN_MODULE_EXTRA', [])) + ['CC.Properti
 # round 5: equilibrium = DC solution at circuit level (lean/CC/Properties/C12Equilibrium.lean; C10_transfer at s = 0)
 THEOREMS += ['CC.C12_equilibrium_is_dc', 'CC.C12_equilibrium_is_dc_unique']
 LEAN_MODULE_EXTRA = list(globals().get('LEAN_MODULE_EXTRA', [])) + ['CC.Properties.C12Equilibrium']
+# translator tie of the TransientSolution getters: the series a getter returns is row_c·x_t + row_d·u_t per sample = the report read from y = C x + D u
+# (lean/CC/Properties/C19Transient.lean; generated table Gen.Sol.transientTable, reading CC/Model/TransientGetters.lean)
+THEOREMS += ['CC.C12_getter_is_row_output', 'CC.C12_getter_samples_report']
+LEAN_MODULE_EXTRA = list(globals().get('LEAN_MODULE_EXTRA', [])) + ['CC.Properties.C19Transient']
 OPEN_STATEMENTS = [
+    "getter tie (C12_getter_is_row_output / C12_getter_samples_report): the four TransientSolution getters are extracted (Gen.Sol.transientTable) and proved, for ARBITRARY sample arrays _x, _u, to return per sample the report read from y = C x + D u; NOT extracted: __post_init__ (that _x is the solver's state for _u, the order of _u = sources, _tout) — model transientU / transientSeries + correspondence ss_transient; the evaluator of the generated expression trees (CC/Model/TransientGetters.lean) is a hand-written reading; numpy shape errors are not modelled",
     "not formalised: 'agrees with the exact response of the linear system for piecewise-linear inputs' — lsim is a parameter of the model; oracle only (independent matrix-exponential reference on every case)",
     "not formalised: 'for constant inputs they settle to the DC solution' — proved is the algebraic core only: at a rest point (A x + B u = 0) the outputs are Ã⁻¹ QS u (C12_settle_dc) and the report read from them solves the circuit equations of the DC (s = 0) network, uniquely when that network is well-posed (C12_equilibrium_is_dc, C12_equilibrium_is_dc_unique); that the simulated trajectory CONVERGES to a rest point (needs Re λ < 0 and the flow), and that a rest point exists, is not a theorem; oracle only (settle stream against DCSolution)",
     "not formalised: 'for periodic inputs they settle to the multi-frequency steady state of C09' — C12_frequency_response (= C10_transfer) is the frequency response only, not convergence of the simulation; oracle only (periodic-steady-state stream against TimeDomainSolution)",
